@@ -150,6 +150,14 @@ def type_of(t):
         return 'obj:' + t[1]
     if k == 'op':
         n = t[1]
+        if n == 'CAT':
+            for sg in t[2:]:
+                ty = type_of(sg)
+                if ty in ('str', 'bytes'):
+                    return ty
+            return 'bytes'
+        if n == 'SLICE':
+            return type_of(t[2])
         if n in BYTES_OPS:
             return 'bytes'
         if n in STR_OPS:
